@@ -828,8 +828,8 @@ def cov_probe():
     np.random.seed(0)
     with warnings.catch_warnings():
         warnings.simplefilter("ignore")
-        f([[0, 1, 0], [0, 0, 1], [0, 0, 0]], sps.csr_matrix(np.array([[0, 1, 0, 0], [0, 0, 0, 0], [0, 0, 0, 1], [0, 0, 0, 0]])))
-        f([[[0, 1], [0, 0]], np.array([[0]]), [[0, 1, 1], [0, 0, 1], [0, 0, 0]]])
+        call(f, [[0, 1, 0], [0, 0, 1], [0, 0, 0]], sps.csr_matrix(np.array([[0, 1, 0, 0], [0, 0, 0, 0], [0, 0, 0, 1], [0, 0, 0, 0]])))
+        call(f, [[[0, 1], [0, 0]], np.array([[0]]), [[0, 1, 1], [0, 0, 1], [0, 0, 0]]])
         call(f, [[[0]]])
         call(gh().determine_optimal_int_type, 2 ** 63)
 
